@@ -182,7 +182,7 @@ private theorem visitM_id (T : Table) (v : Visitor σ) (hv : Observer v) :
     rw [hes] at he
     simp only at he
     subst he
-    simp only [visitM, hes] at h
+    simp only [visitM, hes, bodyMethod_of_kind_eq T _ c c rfl] at h
     split at h
     · simp at h
     · rename_i steps hm
@@ -325,7 +325,7 @@ private theorem visitM_bracket (T : Table) (v : Visitor σ) (hv : IdPreserving v
     | delete => simp only [visitM, hes, Res.ok.injEq] at h; subst h; exact Or.inl rfl
     | keep n1 =>
       simp only at hp
-      simp only [visitM, hes] at h
+      simp only [visitM, hes, bodyMethod_of_kind_eq T _ c n1 hp.2] at h
       split at h
       · simp at h
       · split at h
@@ -338,7 +338,7 @@ private theorem visitM_bracket (T : Table) (v : Visitor σ) (hv : IdPreserving v
           exact Or.inr ⟨tr, n2, rfl, rfl, by rw [i, hp.1], by rw [k, hp.2], f⟩
     | replace n1 =>
       simp only at hp
-      simp only [visitM, hes] at h
+      simp only [visitM, hes, bodyMethod_of_kind_eq T _ c n1 hp.2] at h
       split at h
       · simp at h
       · split at h
@@ -435,14 +435,16 @@ theorem skip_local (T : Table) (v : Visitor σ) (fuel : Nat) (m : String) (c : N
     (h : v.enter c s = (.skip c, s1)) : visitM T v (fuel + 1) m c s = .ok ⟨some c, c, s1, [⟨true, c⟩]⟩ := by
   simp [visitM, h]
 
-/-- what the wrapper does when `enter` returns a fresh node `r`: the body of the SAME `_visit_*` method runs on
-    `r`, `leave` is called with the result, the argument object is untouched -/
-theorem visitM_replace (T : Table) (v : Visitor σ) (fuel : Nat) (m : String) (c r : Node) (s s1 : σ)
+/-- what the wrapper does when `enter` returns a fresh node `r`: the body of the method selected for `r`
+    (`bodyMethod`: the SAME `_visit_*` method if `r` has the class of `c`, else the one `visit` registers for the class
+    of `r` when the wrapper dispatches on it) runs on `r`, `leave` is called with the result, the argument object is
+    untouched -/
+theorem visitM_replace (T : Table) (v : Visitor σ) (fuel : Nat) (m mb : String) (c r : Node) (s s1 : σ)
     (steps : List Step) (r2 : Node) (s2 : σ) (tb : List Ev)
-    (h : v.enter c s = (.replace r, s1)) (hm : T.methods.lookup m = some steps)
+    (h : v.enter c s = (.replace r, s1)) (hbm : bodyMethod T m c r = .ok mb) (hm : T.methods.lookup mb = some steps)
     (hb : runSteps (callTarget T (visitM T v fuel)) steps r s1 = .ok (r2, s2, tb)) :
     visitM T v (fuel + 1) m c s = .ok ⟨some r2, c, v.leave r2 s2, ⟨true, c⟩ :: tb ++ [⟨false, r2⟩]⟩ := by
-  simp [visitM, h, hm, hb]
+  simp [visitM, h, hbm, hm, hb]
 
 /-- **delete_local** — returning nothing from `enter` for a list member removes exactly that member: the rebuilt
     list is (results of the members before) ++ (results of the members after), the only call about `c` is its
@@ -463,10 +465,11 @@ theorem delete_local (T : Table) (v : Visitor σ) (fuel : Nat) (tgt : Target) (m
 /-- **replace_local** — returning a replacement `r` from `enter` for a list member substitutes exactly that
     member: the rebuilt list has the (visited) replacement `r2` at that position between the results of the
     siblings; the calls are `enter c`, the visit of `r`'s children, `leave r2`. -/
-theorem replace_local (T : Table) (v : Visitor σ) (fuel : Nat) (tgt : Target) (m : String)
+theorem replace_local (T : Table) (v : Visitor σ) (fuel : Nat) (tgt : Target) (m mb : String)
     (pre post : List Node) (c r r2 : Node) (s s1 s2 s3 s4 : σ) (rp ip rq iq : List Node) (tp tb tq : List Ev)
     (steps : List Step)
-    (hres : resolve T tgt c.kind = .ok m) (hm : T.methods.lookup m = some steps)
+    (hres : resolve T tgt c.kind = .ok m)
+    (hbm : bodyMethod T m c r = .ok mb) (hm : T.methods.lookup mb = some steps)
     (hpre : visitList (callTarget T (visitM T v (fuel + 1)) tgt) pre s = .ok (rp, ip, s1, tp))
     (hrep : v.enter c s1 = (.replace r, s2))
     (hbody : runSteps (callTarget T (visitM T v fuel)) steps r s2 = .ok (r2, s3, tb))
@@ -475,7 +478,7 @@ theorem replace_local (T : Table) (v : Visitor σ) (fuel : Nat) (tgt : Target) (
       = .ok (rp ++ r2 :: rq, ip ++ c :: iq, s4, tp ++ ((⟨true, c⟩ :: tb ++ [⟨false, r2⟩]) ++ tq)) := by
   have hc : callTarget T (visitM T v (fuel + 1)) tgt c s1
       = .ok ⟨some r2, c, v.leave r2 s3, ⟨true, c⟩ :: tb ++ [⟨false, r2⟩]⟩ := by
-    simp [callTarget, hres, visitM_replace T v fuel m c r s1 s2 steps r2 s3 tb hrep hm hbody]
+    simp [callTarget, hres, visitM_replace T v fuel m mb c r s1 s2 steps r2 s3 tb hrep hbm hm hbody]
   have := member_frame _ pre post c s hpre hc hpost
   simpa using this
 
@@ -644,7 +647,7 @@ private theorem visitM_walk (T : Table) (v : Visitor σ) (hv : Observer v) :
     rw [hes] at he
     simp only at he
     subst he
-    simp only [visitM, hes] at h
+    simp only [visitM, hes, bodyMethod_of_kind_eq T _ c c rfl] at h
     simp only [Spec.walk]
     split at h
     · simp at h
